@@ -67,18 +67,35 @@ Qed.
 Print Assumptions C06_plain.
 
 (** "Everything Qremote writes between the 354 and the final reply is legal SMTP data", on whichever
-    path: for every message made of octets in which is_multipart() accepts no header field (that is: no
-    multipart walk; the message may be of any other shape, with any line ends, 8-bit octets, over-long
-    header and body lines, with or without Content-Transfer-Encoding field, header only, body only), every
-    HELO name that is a legal host name for the generated field, and either 8BITMIME setting.
-    send_data returns, and either the transfer is completed and the octets written are legal data followed
-    by the terminating dot line — on the recoding path that is: the header lines folded by wrap_header
-    / wrap_line, the replaced or added Content-Transfer-Encoding field, the line of recodeheader(), and the
-    body as quoted-printable or as it is — or the transfer was given up before the first octet
-    (8-bit octets in a header, a broken Content-Type).
-    PARTIAL: the hypothesis on is_multipart excludes the multipart walk of send_qp (boundary lines,
-    preamble, parts, epilogue); what is missing for it is listed in reports/C06.md. *)
-Theorem C06_legal_partial : forall (m helo : bytes) (ext8 : bool),
+    path: for EVERY message made of octets (any line ends, 8-bit octets, over-long header and body lines,
+    with or without Content-Transfer-Encoding field, header only, body only, multipart of any shape and
+    nesting, with missing, repeated or terminal boundaries, discarded preamble / epilogue), every HELO name
+    that is a legal host name for the generated field, and either 8BITMIME setting.
+    send_data returns, and
+    - either the transfer is completed: the octets written are legal data (CRLF-terminated lines without
+      other CR/LF, none over 998 octets not counting the transparency dot, 7 bit unless 8BITMIME, no lone
+      dot) followed by the terminating dot line.  On the recoding path that is: the header lines folded by
+      wrap_header / wrap_line, the replaced or added Content-Transfer-Encoding field, the lines of
+      recodeheader(), the body as quoted-printable or as it is, and for a multipart the delimiter lines, the
+      texts for a discarded preamble / epilogue and every part, recursively, each either as it is or
+      through the same recoder;
+    - or Qremote gave up through net_conn_shutdown() (8-bit octets in a header, a broken Content-Type, of the
+      message or of a part): then it has written complete legal lines and possibly the beginning of
+      one that could still be completed legally. *)
+Theorem C06_legal : forall (m helo : bytes) (ext8 : bool),
+  line_clean helo /\ seven_bit helo /\ length helo <= 255 ->
+  Forall (fun c => (c < 256)%N) m ->
+  exists fl q r, send_data m helo ext8 = Ok (fl, q, r) /\
+    match r with
+    | Done _ st => exists d, concat (rev (out st)) = d ++ TERMINATOR /\ legal_data ext8 d
+    | Die _ st => exists d t, concat (rev (out st)) = d ++ t /\ legal_data ext8 d /\ legal_line ext8 t
+    end.
+Proof. exact send_data_legal. Qed.
+Print Assumptions C06_legal.
+
+(** when no header field of the message is accepted by is_multipart() as a multipart Content-Type (no
+    multipart walk), giving up means that nothing at all was written *)
+Theorem C06_legal_nomulti : forall (m helo : bytes) (ext8 : bool),
   line_clean helo /\ seven_bit helo /\ length helo <= 255 ->
   Forall (fun c => (c < 256)%N) m ->
   (forall ls ll bs bl, is_multipart m ls ll <> Ok (MpYes bs bl)) ->
@@ -88,7 +105,7 @@ Theorem C06_legal_partial : forall (m helo : bytes) (ext8 : bool),
     | Die _ st => concat (rev (out st)) = []
     end.
 Proof. exact send_data_legal_partial. Qed.
-Print Assumptions C06_legal_partial.
+Print Assumptions C06_legal_nomulti.
 
 (** recode_qp(), the quoted-printable recoder, on any window (body or MIME part) of any message made of
     octets: it terminates, reads nothing outside the window, stays inside sendbuf[1280], and what it
